@@ -68,6 +68,8 @@ def check(ctx):
     rep.floor('R1', 'conjugate instances', n, 12)
     _moreau(rep, model)
     _pairing(rep, model)
+    from . import c08b
+    c08b.run(rep, model)
     return rep
 
 
